@@ -26,6 +26,7 @@ def check(ctx):
     # configuration index past the end of the compiled list)
     from . import pC06
     pC06.mode_order_rules(ctx)
+    pC06.data_api_rules(ctx, "C01.e")      # spans reach the user as computed (Match / Span constructors store their arguments)
     from . import panics
     panics.analyze(ctx, {"C07.d", "C07.e"})
     # (C06.e: the iterator scans the caller's own input — a haystack that was trimmed, copied or re-encoded on the way gives spans that do not fit the string the caller holds)
